@@ -1,8 +1,11 @@
 ------------------------- MODULE DSMRNodeAccept_MC -------------------------
 (* design step for C35: every block of 1..MaxCerts distinct certificates, each chunk local or remote,      *)
-(* every response script of length <= MaxScript over Kinds, two blocks in a row.                            *)
+(* every response script of length <= MaxScript over Kinds, two blocks in a row, every producer limit in    *)
+(* Limits (chunks are stored ahead of the block only under the limit, as the signature-request path does).  *)
+(* Variant: "fixed" (repaired code), "original" (as coded before), "ratelimited" (VerifyRemoteChunk also    *)
+(* rate-limits fetched chunks; must violate Served).                                                        *)
 EXTENDS DSMRNodeAccept
-CONSTANTS MaxCerts, MaxScript, MaxBlocks, Original
+CONSTANTS MaxCerts, MaxScript, MaxBlocks, Variant, Limits
 VARIABLE nblk
 mvars == <<avars, nblk>>
 
@@ -12,17 +15,22 @@ Distinct(s) == \A i, j \in DOMAIN s : i # j => s[i] # s[j]
 Blocks  == {s \in SeqsUpTo(Chunks, MaxCerts) : Len(s) >= 1 /\ Distinct(s)}
 Scripts == SeqsUpTo(Kinds, MaxScript)
 
-MCInit == AcceptInit /\ nblk = 0
+ProdOf(c) == IF c = "k3" THEN "v2" ELSE "v1"
+Req(c, k) == CASE Variant = "original"    -> RequestAsOriginallyCoded(c, k)
+               [] Variant = "ratelimited" -> RequestRateLimited(c, k)
+               [] OTHER                   -> Request(c, k)
+
+MCInit == nblk = 0 /\ \E lim \in Limits : AcceptInit(lim)
 MCNext ==
-  \/ \E c \in Chunks : Store(c) /\ UNCHANGED nblk
+  \/ \E c \in Chunks \ have : Cardinality({d \in pend : ProdOf(d) = ProdOf(c)}) + 1 <= limit /\ Store(c, ProdOf(c)) /\ UNCHANGED nblk
   \/ /\ nblk < MaxBlocks
-     /\ \E cs \in Blocks, sc \in Scripts : AcceptCall(cs, sc)
+     /\ \E cs \in Blocks, sc \in Scripts : AcceptCall(cs, [i \in DOMAIN cs |-> ProdOf(cs[i])], sc)
      /\ nblk' = nblk + 1
-  \/ /\ \E c \in Chunks, k \in Kinds : IF Original THEN RequestAsOriginallyCoded(c, k) ELSE Request(c, k)
+  \/ /\ \E c \in Chunks, k \in Kinds : Req(c, k)
      /\ UNCHANGED nblk
   \/ AcceptReturn /\ UNCHANGED nblk
   \/ AcceptFail /\ UNCHANGED nblk
-Progress == \/ \E c \in Chunks, k \in Kinds : IF Original THEN RequestAsOriginallyCoded(c, k) ELSE Request(c, k)
+Progress == \/ \E c \in Chunks, k \in Kinds : Req(c, k)
             \/ AcceptReturn \/ AcceptFail
 MCSpec == MCInit /\ [][MCNext]_mvars /\ WF_mvars(Progress /\ UNCHANGED nblk)
 =============================================================================
